@@ -1034,7 +1034,24 @@ impl<'a> ProgGen<'a> {
     fn named_literal(&mut self, name: &str, depth: u32) -> String {
         match self.structs.iter().find(|s| s.0 == name).cloned() {
             Some((n, fields)) => {
-                let parts: Vec<String> = fields.iter().map(|(f, t)| format!("{f}: {}", self.typed(t, depth + 1))).collect();
+                let mut parts: Vec<String> = fields.iter().map(|(f, t)| format!("{f}: {}", self.typed(t, depth + 1))).collect();
+                if self.rng.chance(1, 6) && !self.locals.is_empty() {
+                    // struct composition: some fields come from `...source` variables of any type
+                    // (struct-typed ones like `this`, `envelope` preferred when present)
+                    let mut kept = vec![];
+                    for p in parts {
+                        if self.rng.chance(1, 2) {
+                            kept.push(p);
+                        }
+                    }
+                    parts = kept;
+                    for _ in 0..self.rng.urange(1, 2) {
+                        let structy: Vec<String> = self.locals.iter().filter(|(_, t)| t.starts_with("struct") || t == "?").map(|(v, _)| v.clone()).collect();
+                        let v = if !structy.is_empty() && self.rng.chance(2, 3) { self.rng.pick(&structy).clone() } else { self.rng.pick(&self.locals).0.clone() };
+                        parts.push(format!("...{v}"));
+                    }
+                    self.tags.push("struct-composition");
+                }
                 format!("{n} {{ {} }}", parts.join(", "))
             }
             None => format!("{name} {{ a: {} }}", self.expr(depth + 1)),
@@ -1253,6 +1270,12 @@ impl<'a> ProgGen<'a> {
             }
             if self.bad() {
                 parts.push(format!("+{}", ps(self.rng, &["S0", "S1", "S9"])));
+            } else if self.rng.chance(1, 6) && !self.structs.is_empty() {
+                // insertion of an already defined struct, before or after the explicit fields
+                let k = self.rng.usize(self.structs.len());
+                let at = self.rng.usize(parts.len() + 1);
+                parts.insert(at, format!("+{}", self.structs[k].0));
+                self.tags.push("struct-field-insertion");
             }
             out.push_str(&format!("struct {name} {{ {} }}\n", parts.join(", ")));
             self.structs.push((name, fields));
@@ -1269,7 +1292,14 @@ impl<'a> ProgGen<'a> {
         for i in 0..self.rng.usize(3) {
             let name = self.fresh("Eff", i);
             let t = if self.bad() { self.ty(0) } else { (ps(self.rng, &["int", "string", "bool", "option[int]"])).to_string() };
-            out.push_str(&format!("effect {name} {{ a {t}{} }}\n", if self.rng.chance(1, 4) { " dynamic" } else { "" }));
+            let ins = if self.rng.chance(1, 5) && !self.structs.is_empty() {
+                let k = self.rng.usize(self.structs.len());
+                self.tags.push("effect-field-insertion");
+                if self.rng.chance(1, 2) { format!(", +{}", self.structs[k].0) } else { format!(", +{}, +{}", self.structs[k].0, self.structs[self.rng.usize(self.structs.len())].0) }
+            } else {
+                String::new()
+            };
+            out.push_str(&format!("effect {name} {{ a {t}{}{ins} }}\n", if self.rng.chance(1, 4) { " dynamic" } else { "" }));
             self.effects.push(name.clone());
             self.structs.push((name, vec![("a".into(), t)]));
         }
@@ -1343,7 +1373,22 @@ impl<'a> ProgGen<'a> {
                 c.push_str(&format!("attributes {{ prio: {} }}\n", if self.bad() { self.expr(2) } else { self.rng.range(0, 9).to_string() }));
             }
             if !self.bad() {
-                c.push_str(&format!("fields {{ a {t} }}\n"));
+                // explicit fields plus struct insertions at any position (colliding field names
+                // arise naturally: most generated structs have a field `a`)
+                let mut parts = vec![format!("a {t}")];
+                if self.rng.chance(1, 4) {
+                    parts.push(format!("{} int", ps(self.rng, &["b", "c", "a"])));
+                }
+                for _ in 0..self.rng.usize(3) {
+                    if self.rng.chance(1, 2) && !self.structs.is_empty() {
+                        let k = self.rng.usize(self.structs.len());
+                        let ins = format!("+{}", self.structs[k].0);
+                        let at = self.rng.usize(parts.len() + 1);
+                        parts.insert(at, ins);
+                        self.tags.push("command-field-insertion");
+                    }
+                }
+                c.push_str(&format!("fields {{ {} }}\n", parts.join(", ")));
             }
             if !self.bad() {
                 c.push_str(&format!("seal {}\n", if !self.bad() { "{ return todo() }".to_string() } else { self.block(0, 2, "seal") }));
